@@ -17,7 +17,8 @@ from typing import Dict, List, Optional, Set, Tuple
 import sympy as sp
 
 from ..alias import Analyzer
-from ..consteval import Folder, Opaque, Raised, Rec, Undecidable
+from ..consteval import Folder, Opaque, Raised, Rec, Undecidable, make_gate
+from ..rules import circuitsem as cs
 from ..index import AnalysisError, FunctionInfo, Index, const_str_set, norm, own_nodes
 from ..report import Report
 from ..rules.purity import check_purity
@@ -67,6 +68,7 @@ def run(idx: Index, rep: Report, tier: str):
     check_reindex_order(idx, rep)
     check_redundant_gate_cancellation(idx, rep)
     check_gate_equality(idx, rep, sets)
+    check_pass_semantics(idx, rep, tier)
     rep.stats.update({"alias_" + k: v for k, v in an.stats.items()})
 
 
@@ -490,3 +492,98 @@ def check_gate_equality(idx: Index, rep: Report, sets):
         rep.decide(got == want, rule, f, f.node, text=f"{label}: {'equal' if want else 'different'}",
                    what="gates compare equal exactly when they implement the same operation up to phase (same name up to CNOT=CX, same qubits, same flag, angles equal modulo the period)",
                    reason=f"{label}: __eq__ gives {got}, expected {want}")
+
+
+# ---------------------------------------------------------------------------------------------------
+# the peephole passes folded on every short gate sequence over a small gate alphabet
+class _CircP:
+    """stand-in for a linq Circuit in the simplification passes: gate list and width"""
+    _sa_model = True
+
+    def __init__(self, gates=None, n_qubits=None, **_kw):
+        self._gates = list(gates or [])
+        used = [q for g in self._gates for q in (list(g.fields["target"]) + list(g.fields["control"] or []))]
+        self.width = n_qubits if n_qubits is not None else (max(used) + 1 if used else 0)
+        self.size = len(self._gates)
+
+    def __iter__(self):
+        return iter(self._gates)
+
+
+def _sig(gates):
+    return [(g.fields["name"], tuple(g.fields["target"]), tuple(g.fields["control"]) if g.fields["control"] else None, g.fields["parameter"], g.fields["is_variational"]) for g in gates]
+
+
+def check_pass_semantics(idx: Index, rep: Report, tier: str):
+    """merge_rotations, remove_small_rotations and remove_redundant_gates are peephole rules on neighbouring gates: each is folded on every
+    sequence of two gates (and of three over a smaller alphabet) from an alphabet that has, for every rule, gates that trigger it, nearly
+    trigger it and block it (angles summing to 2 pi and 4 pi, angles just inside and outside the threshold, the same rotation on another
+    qubit or axis, a gate in between on one of two qubits).  The unitary of the result - checker-side reference matrices - must equal the
+    original up to a phase (plus the threshold per dropped rotation) and the input gate list must be left as it was."""
+    import copy
+    import math
+    from ..rules import numsem
+    from ..rules.circuitsem import make_folder
+    rule = "K9.pass-semantics"
+    eqf = idx.function(f"{GATE}::Gate.__eq__")
+    inv = cs.gate_inverse_ctor(idx)
+
+    def gate_eq(a, args, kwargs):
+        if not isinstance(args[0], Rec):
+            return False
+        fo = Folder(env={"pi": math.pi})
+        return bool(fo.run_function(eqf.node, {"self": _num(a), "other": _num(args[0])}))
+
+    def _num(r):
+        p = r.fields.get("parameter")
+        if isinstance(p, sp.Basic) and not p.free_symbols:
+            r = Rec("Gate", dict(r.fields, parameter=float(p)))
+        return r
+
+    def inverse(obj, args, kwargs):
+        return _num(inv(obj, args, kwargs))
+    ctors = {"Circuit": lambda a, k: _CircP(*a, **k), ("Gate", "inverse"): inverse, ("Gate", "__eq__"): gate_eq}
+    pi = math.pi
+    tau = 1e-3
+
+    def g(name, t, c=None, p=""):
+        return make_gate([name, [t] if isinstance(t, int) else list(t)], {"control": None if c is None else [c], "parameter": p})
+    full_alpha = [g("H", 0), g("X", 0), g("X", 1), g("S", 0), g("T", 0), g("RZ", 0, p=0.3), g("RZ", 0, p=-1.1), g("RZ", 0, p=2 * pi - 0.3), g("RX", 0, p=0.3),
+                  g("RZ", 1, p=0.3), g("RZ", 0, p=1e-4), g("RZ", 0, p=-1e-4), g("RZ", 0, p=2 * pi + 1e-4), g("RZ", 0, p=5e-3), g("CNOT", 1, 0), g("CNOT", 0, 1), g("CNOT", 2, 0),
+                  g("CRZ", 1, 0, 0.3), g("CRZ", 1, 0, 2 * pi - 0.3), g("CRZ", 1, 0, 2 * pi), g("CRZ", 1, 0, 4 * pi - 0.3), g("CRX", 1, 0, 0.3), g("CPHASE", 1, 0, 0.3),
+                  g("PHASE", 0, p=0.3), g("PHASE", 0, p=2 * pi - 0.3), g("SWAP", (0, 1)), g("CZ", 1, 0), g("RY", 0, p=pi), g("RY", 0, p=-pi)]
+    small_alpha = [full_alpha[i] for i in (1, 5, 7, 14, 17, 18, 10, 2)]
+    pairs = full_alpha if tier == "thorough" else [full_alpha[i] for i in (0, 1, 3, 5, 6, 7, 8, 10, 12, 14, 15, 17, 18, 19, 20, 22, 23, 24, 25)]
+    seqs = [[a, b] for a in pairs for b in pairs] + [[a, b, c] for a in small_alpha for b in small_alpha for c in small_alpha]
+    passes = [("merge_rotations", {}), ("remove_small_rotations", {"param_threshold": tau, "remove_qubits": False}), ("remove_redundant_gates", {"remove_qubits": False})]
+    for pname, extra in passes:
+        f = idx.function(f"{CIRCUIT}::{pname}")
+        bad, changed = [], 0
+        for seq in seqs:
+            inp = [copy.deepcopy(x) for x in seq]
+            before = _sig(inp)
+            fo = make_folder(idx, CIRCUIT, ctors=ctors)
+            fo.env["np.pi"] = pi
+            try:
+                out = fo.run_function(f.node, dict({"circuit": _CircP(inp, n_qubits=3)}, **extra))
+            except Undecidable as e:
+                raise AnalysisError(f"{pname} not foldable on {before}: {e}")
+            except Raised as e:
+                bad.append((before, f"raises {e.exc_type}"))
+                continue
+            if not isinstance(out, _CircP):
+                raise AnalysisError(f"{pname} folded to {out!r}")
+            if _sig(out._gates) != before:
+                changed += 1
+            if _sig(inp) != before:
+                bad.append((before, "the input circuit's gates were modified"))
+                continue
+            dropped = max(0, len(before) - len(out._gates)) if pname == "remove_small_rotations" else 0
+            d = numsem.distance_up_to_phase(numsem.circuit_unitary(out._gates, 3), numsem.circuit_unitary(inp, 3))
+            if d > 1e-9 + dropped * tau:
+                bad.append((before, f"result {_sig(out._gates)} differs from the input by {d:.3g} (allowed {1e-9 + dropped * tau:.3g})"))
+        rep.decide(not bad, rule, f, f.node, text=f"{pname}: {len(seqs)} gate sequences ({changed} rewritten)",
+                   what="the pass returns a circuit with the same action up to a global phase (up to the threshold per dropped rotation) and leaves its input unchanged",
+                   reason=f"{len(bad)} sequence(s) fail, e.g. {bad[0][0]}: {bad[0][1]}" if bad else "")
+        if not bad:
+            rep.floor(f"{pname}: sequences actually rewritten", changed, 5)
